@@ -19,7 +19,8 @@ pub struct LegacyScriptletResourceStorage { pub x: u8 }
 pub struct LegacyHostnameRuleDb { pub view: Ghost<int> }
 pub struct HostnameFilterBin<T>(pub HashMap<Hash, Vec<T>>);
 pub struct HostnameRuleDb {
-    pub core: Ghost<int>,   // hide / unhide / inject_script / uninject_script (through the legacy db)
+    pub core: Ghost<int>,   // what unit c08_legacy proves to survive the legacy db: the hide / unhide / uninject_script buckets and the TEXTS of
+                            // inject_script (the permissions do not survive: known finding C08.legacy.inject_permission)
     pub procedural_action: HostnameFilterBin<String>,
     pub procedural_action_exception: HostnameFilterBin<String>,
 }
@@ -38,8 +39,8 @@ impl From<NetworkFilterListV0DeserializeFmt> for NetworkFilterList {
     #[verifier::external_body]
     fn from(v: NetworkFilterListV0DeserializeFmt) -> (r: Self) ensures r.view@ == v.view@ { unimplemented!() }
 }
-// T: legacy cosmetic rule db conversion both ways (Entry API / HashMap::into_iter: outside the subset);
-// what it is trusted to preserve is the `core` part of the rule db
+// legacy cosmetic rule db conversion both ways: contract proved on the real code in unit c08_legacy (C08.legacy.roundtrip.*);
+// here it is abstracted to "the `core` part of the rule db is preserved"
 pub uninterp spec fn legacy_of(core: int) -> int;
 pub uninterp spec fn core_of(legacy: int) -> int;
 pub broadcast axiom fn legacy_roundtrip(c: int) ensures #[trigger] core_of(legacy_of(c)) == c;
